@@ -62,7 +62,7 @@ Cases ==
                                    "max", "sort", "reverse", "unique", "group", "prefixes", "suffixes",
                                    "frequencies", "subsequences"}}
        \cup {<<"permutations", Par0>> : z \in IF len <= 4 THEN {0} ELSE {}}
-       \cup {<<fn, PN(n)>> : fn \in {"group_n", "group'_n", "window", "replicate", "replicate_r", "combinations",
+       \cup {<<fn, PN(n)>> : fn \in {"group_n", "group'_n", "window", "replicate", "replicate_r", "repeat", "repeat_r", "combinations",
                                     "flatten_group", "transpose_group"}, n \in Ns}
        \cup {<<"power", PN(n)>> : n \in {m \in Ns : Pow(len, m) <= 40}}
        \cup {<<fn, PV(v)>> : fn \in {"count_v", "find_v", "find?_v", "locate_v", "locate?_v", "append", "prepend",
